@@ -503,3 +503,18 @@ func vB64OK(s string) bool {
 }
 func vByteAt(b []byte, i int) byte { return b[i] }
 func vRSADecryptCalls() int       { return 0 }
+
+func vGCMTagOK(name string) bool {
+	ok, _ := vx.inputs[name+".gcm_ok"].(bool)
+	return ok
+}
+
+// native: vCipherValue seals an all-zero plaintext
+func vIsGCMOpened(out []byte) bool {
+	for _, b := range out {
+		if b != 0 {
+			return false
+		}
+	}
+	return true
+}
